@@ -349,7 +349,7 @@ def encBody (fv : Nat) (f : RawFacts) : Bytes :=
 
 /-- decoding the sections of an encoded file followed by arbitrary bytes `tail`: all records come
 back; `tail` is what the final length check sees -/
-theorem decodeRaw_enc (fv : Nat) (hfv : fv = 1 ∨ fv = 2 ∨ fv = 3) (f : RawFacts) (h : FactsOK fv f)
+theorem decodeRaw_enc (fv : Nat) (f : RawFacts) (h : FactsOK fv f)
     (tail : Bytes) :
     decodeRaw fv (encBody fv f ++ tail) = finish (projFacts fv f) tail := by
   have hv : hpoVersion fv (encBody fv f ++ tail) =
@@ -358,7 +358,7 @@ theorem decodeRaw_enc (fv : Nat) (hfv : fv = 1 ∨ fv = 2 ∨ fv = 3) (f : RawFa
     · simp [encBody, h1, hpoVersion]
     · simp only [encBody, h1, ↓reduceIte, List.append_assoc]
       exact hpoVersion_enc fv h1 f.version h.ver _
-  simp only [decodeRaw, hv, Res.bind]
+  simp only [decodeRaw, decodeSections, hv, Res.bind]
   simp only [encSections, List.append_assoc]
   rw [takeSection_sec _ _ h.termsLen]
   simp only [decodeTerms_enc fv f.terms h.terms]
@@ -372,7 +372,225 @@ theorem decodeRaw_enc (fv : Nat) (hfv : fv = 1 ∨ fv = 2 ∨ fv = 3) (f : RawFa
   · simp only [h3, ↓reduceIte, orphaSection, Res.bind]
     rw [takeSection_sec _ _ h.orphaLen]
     simp only [decodeDiseases_enc f.orpha h.orpha, projFacts, h3, ↓reduceIte]
-  · simp only [h3, ↓reduceIte, orphaSection, Res.bind, List.nil_append, projFacts]
+  · simp only [h3, ↓reduceIte, orphaSection, List.nil_append, projFacts]
+
+/-! ### the format version -/
+
+theorem version_magic (v : UInt8) (rest : Bytes) (h : rest ≠ []) :
+    version (magic ++ v :: rest) =
+      if v = 3 then .ok (3, rest) else if v = 2 then .ok (2, rest) else .err .notImplemented := by
+  cases rest with
+  | nil => exact absurd rfl h
+  | cons a r => simp [version, magic]
+
+theorem version_short (p : Bytes) (h : p.length < 5) : version p = .err .parseBinary := by
+  have : ¬ 5 ≤ p.length := by omega
+  simp [version, this]
+
+theorem version_v1 (p full : Bytes) (hp : p <+: full) (hlen : 5 ≤ p.length) (hm : full.take 3 ≠ magic) :
+    version p = .ok (1, p) := by
+  obtain ⟨t, rfl⟩ := hp
+  rcases p with _ | ⟨a, _ | ⟨b, _ | ⟨c, _ | ⟨d, _ | ⟨e, q⟩⟩⟩⟩⟩ <;> simp at hlen
+  simp only [List.cons_append, List.take_succ_cons, List.take_zero] at hm
+  simp [version, hm]
+
+theorem take3_ne_magic (n : Nat) (y : Bytes) (h : n < 0x48504f00) : (u32be n ++ y).take 3 ≠ magic := by
+  simp only [u32be, List.cons_append, List.take_succ_cons, List.take_zero, magic]
+  intro hh
+  simp only [List.cons.injEq, and_true] at hh
+  obtain ⟨h1, h2, h3⟩ := hh
+  have h1 := congrArg UInt8.toNat h1
+  have h2 := congrArg UInt8.toNat h2
+  have h3 := congrArg UInt8.toNat h3
+  simp only [UInt8.toNat_ofNat'] at h1 h2 h3
+  have e1 : (72 : UInt8).toNat = 72 := rfl
+  have e2 : (80 : UInt8).toNat = 80 := rfl
+  have e3 : (79 : UInt8).toNat = 79 := rfl
+  omega
+
+/-! ### proper prefixes -/
+
+theorem prefix_append_cases {α : Type} (p a b : List α) (h : p <+: a ++ b) :
+    (p.length < a.length ∧ p <+: a) ∨ ∃ p', p = a ++ p' ∧ p' <+: b := by
+  obtain ⟨t, ht⟩ := h
+  rcases List.append_eq_append_iff.1 ht with ⟨a', ha, hb⟩ | ⟨c', hp, hb⟩
+  · -- a = p ++ a'
+    by_cases hnil : a' = []
+    · subst hnil
+      right
+      refine ⟨[], by simpa using ha.symm, List.nil_prefix⟩
+    · left
+      subst ha
+      refine ⟨?_, List.prefix_append _ _⟩
+      have : 0 < a'.length := List.length_pos_iff.2 hnil
+      simp; omega
+  · right
+    exact ⟨c', hp, ⟨t, hb.symm⟩⟩
+
+/-- a section whose header or payload is cut: the slice of `from_bytes` is out of range -/
+theorem takeSection_short (p y : Bytes) (n : Nat) (hn : n < 4294967296) (hp : p <+: u32be n ++ y)
+    (hlen : p.length < 4 + n) : takeSection p = .panic := by
+  obtain ⟨t, ht⟩ := hp
+  rcases p with _ | ⟨a, _ | ⟨b, _ | ⟨c, _ | ⟨d, q⟩⟩⟩⟩
+  · simp [takeSection]
+  · simp [takeSection]
+  · simp [takeSection]
+  · simp [takeSection]
+  · simp only [u32be, List.cons_append, List.nil_append, List.cons.injEq] at ht
+    obtain ⟨rfl, rfl, rfl, rfl, _⟩ := ht
+    simp only [takeSection]
+    rw [be32_u32be _ hn]
+    have : ¬ n ≤ q.length := by simp at hlen; omega
+    simp [this]
+
+/-- a proper prefix of `sec x ++ rest`: the slice panics, or the section is complete and what is
+left is a proper prefix of `rest` -/
+theorem takeSection_prefix (p x rest : Bytes) (hx : x.length < 4294967296) (hp : p <+: sec x ++ rest)
+    (hne : p ≠ sec x ++ rest) :
+    takeSection p = .panic ∨ ∃ p', p = sec x ++ p' ∧ p' <+: rest ∧ p' ≠ rest := by
+  rcases prefix_append_cases p (sec x) rest hp with ⟨hl, hpre⟩ | ⟨p', rfl, hp'⟩
+  · left
+    have : p <+: u32be x.length ++ x := hpre
+    apply takeSection_short p x x.length hx this
+    simpa using hl
+  · right
+    refine ⟨p', rfl, hp', ?_⟩
+    intro h; exact hne (by rw [h])
+
+theorem hpoVersion_short (fv : Nat) (h1 : fv ≠ 1) (p : Bytes) (h : p.length < 4) :
+    ¬ (hpoVersion fv p).isOk := by
+  rcases p with _ | ⟨a, _ | ⟨b, _ | ⟨c, _ | ⟨d, q⟩⟩⟩⟩ <;> simp [hpoVersion, h1, Res.isOk] at h ⊢
+  omega
+
+theorem not_ok_bind {α β : Type} (r : Res α) (k : α → Res β) (h : r.isOk = false) :
+    (r.bind k).isOk = false := by
+  cases r <;> simp_all [Res.bind, Res.isOk]
+
+/-- every proper prefix of the sections of an encoded file is rejected: a cut header or payload
+makes a slice panic; a complete section leaves a proper prefix of the remaining sections -/
+theorem decodeSections_prefix (fv : Nat) (ver : Nat × Nat × Nat) (f : RawFacts) (h : FactsOK fv f)
+    (p : Bytes) (hp : p <+: encSections fv f) (hne : p ≠ encSections fv f) :
+    (decodeSections fv ver p).isOk = false := by
+  simp only [encSections] at hp hne
+  rcases takeSection_prefix p _ _ h.termsLen hp hne with hpan | ⟨p1, rfl, hp1, hne1⟩
+  · simp [decodeSections, hpan, Res.bind, Res.isOk]
+  simp only [decodeSections]
+  rw [takeSection_sec _ _ h.termsLen]
+  simp only [Res.bind, decodeTerms_enc fv f.terms h.terms]
+  rcases takeSection_prefix p1 _ _ h.parentsLen hp1 hne1 with hpan | ⟨p2, rfl, hp2, hne2⟩
+  · simp [hpan, Res.isOk]
+  rw [takeSection_sec _ _ h.parentsLen]
+  simp only [decodeParents_enc f.parents h.parents]
+  rcases takeSection_prefix p2 _ _ h.genesLen hp2 hne2 with hpan | ⟨p3, rfl, hp3, hne3⟩
+  · simp [hpan, Res.isOk]
+  rw [takeSection_sec _ _ h.genesLen]
+  simp only [decodeGenes_enc f.genes h.genes]
+  rcases takeSection_prefix p3 _ _ h.omimLen hp3 hne3 with hpan | ⟨p4, rfl, hp4, hne4⟩
+  · simp [hpan, Res.isOk]
+  rw [takeSection_sec _ _ h.omimLen]
+  simp only [decodeDiseases_enc f.omim h.omim]
+  by_cases h3 : fv > 2
+  · simp only [h3, ↓reduceIte] at hp4 hne4
+    rw [← List.append_nil (sec (encRecs encDisease f.orpha))] at hp4 hne4
+    rcases takeSection_prefix p4 _ _ h.orphaLen hp4 hne4 with hpan | ⟨p5, rfl, hp5, hne5⟩
+    · simp [orphaSection, h3, hpan, Res.bind, Res.isOk]
+    · exact absurd (List.prefix_nil.1 hp5) hne5
+  · simp only [h3, ↓reduceIte] at hp4 hne4
+    exact absurd (List.prefix_nil.1 hp4) hne4
+
+theorem decodeRaw_prefix (fv : Nat) (f : RawFacts) (h : FactsOK fv f)
+    (p : Bytes) (hp : p <+: encBody fv f) (hne : p ≠ encBody fv f) :
+    (decodeRaw fv p).isOk = false := by
+  by_cases h1 : fv = 1
+  · simp only [encBody, h1, ↓reduceIte, List.nil_append] at hp hne
+    subst h1
+    simp only [decodeRaw, hpoVersion, ↓reduceIte, Res.bind]
+    exact decodeSections_prefix 1 _ f h p hp hne
+  · simp only [encBody, h1, ↓reduceIte] at hp hne
+    rcases prefix_append_cases p _ _ hp with ⟨hl, _⟩ | ⟨p', rfl, hp'⟩
+    · have := hpoVersion_short fv h1 p (by simpa [verBytes] using hl)
+      exact not_ok_bind _ _ (by simpa using this)
+    · simp only [decodeRaw, hpoVersion_enc fv h1 f.version h.ver p', Res.bind]
+      apply decodeSections_prefix fv _ f h p' hp'
+      intro e; exact hne (by rw [e])
+
+/-! ### `decodeBytes` on encoded files -/
+
+/-- a set of records is encodable as a file of format version `fv`. For v1 (no magic) the file must
+not START like a v2 / v3 file: its first bytes are the length of the terms section, so that length
+has to stay below 0x48504f00 (1.2 GB) -/
+structure FileOK (fv : Nat) (f : RawFacts) : Prop where
+  fv123 : fv = 1 ∨ fv = 2 ∨ fv = 3
+  facts : FactsOK fv f
+  noMagic : fv = 1 → (encTerms 1 f.terms).length < 0x48504f00
+
+theorem encodeRaw_eq (fv : Nat) (f : RawFacts) :
+    encodeRaw fv f = (if fv = 1 then [] else magic ++ [UInt8.ofNat fv]) ++ encBody fv f := by
+  by_cases h1 : fv = 1
+  · subst h1; simp [encodeRaw, encBody]
+  · simp [encodeRaw, encBody, encHeader, verBytes, magic, h1]
+
+theorem encSections_length_ge (fv : Nat) (f : RawFacts) : 16 ≤ (encSections fv f).length := by
+  simp only [encSections, List.length_append, sec_length]; omega
+
+theorem version_encodeRaw (fv : Nat) (f : RawFacts) (h : FileOK fv f) (tail : Bytes) :
+    version (encodeRaw fv f ++ tail) = .ok (fv, encBody fv f ++ tail) := by
+  rw [encodeRaw_eq]
+  rcases h.fv123 with h1 | h2 | h3
+  · subst h1
+    simp only [↓reduceIte, List.nil_append]
+    apply version_v1 _ _ (List.prefix_refl _)
+    · have := encSections_length_ge 1 f
+      simp only [encBody, ↓reduceIte, List.nil_append, List.length_append]; omega
+    · simp only [encBody, ↓reduceIte, List.nil_append, encSections, sec, List.append_assoc]
+      exact take3_ne_magic _ _ (h.noMagic rfl)
+  · subst h2
+    have hne : encBody 2 f ++ tail ≠ [] := by simp [encBody, verBytes]
+    have := version_magic 2 (encBody 2 f ++ tail) hne
+    simpa using this
+  · subst h3
+    have hne : encBody 3 f ++ tail ≠ [] := by simp [encBody, verBytes]
+    have := version_magic 3 (encBody 3 f ++ tail) hne
+    simpa using this
+
+theorem decodeBytes_enc_tail (fv : Nat) (f : RawFacts) (h : FileOK fv f) (tail : Bytes) :
+    decodeBytes (encodeRaw fv f ++ tail) = (finish (projFacts fv f) tail).bind (Onto.loadFacts fv) := by
+  simp only [decodeBytes, version_encodeRaw fv f h tail, Res.bind, decodeRaw_enc fv f h.facts tail]
+
+theorem decodeBytes_prefix (fv : Nat) (f : RawFacts) (h : FileOK fv f) (p : Bytes)
+    (hp : p <+: encodeRaw fv f) (hne : p ≠ encodeRaw fv f) : (decodeBytes p).isOk = false := by
+  by_cases hshort : p.length < 5
+  · simp [decodeBytes, version_short p hshort, Res.bind, Res.isOk]
+  have hv := version_encodeRaw fv f h []
+  rw [encodeRaw_eq] at hp hne
+  rcases h.fv123 with h1 | h23
+  · subst h1
+    simp only [↓reduceIte, List.nil_append] at hp hne
+    have hm : (encBody 1 f).take 3 ≠ magic := by
+      simp only [encBody, ↓reduceIte, List.nil_append, encSections, sec, List.append_assoc]
+      exact take3_ne_magic _ _ (h.noMagic rfl)
+    simp only [decodeBytes, version_v1 p _ hp (by omega) hm, Res.bind]
+    exact not_ok_bind _ _ (decodeRaw_prefix 1 f h.facts p hp hne)
+  · have h1 : fv ≠ 1 := by omega
+    simp only [h1, ↓reduceIte] at hp hne
+    rcases prefix_append_cases p _ _ hp with ⟨hl, _⟩ | ⟨p', rfl, hp'⟩
+    · simp [magic] at hl; omega
+    · have hp'ne : p' ≠ [] := by
+        intro e; subst e; simp [magic] at hshort
+      have hver : version ((magic ++ [UInt8.ofNat fv]) ++ p') = .ok (fv, p') := by
+        have := version_magic (UInt8.ofNat fv) p' hp'ne
+        rcases h23 with h2 | h3
+        · subst h2; simpa using this
+        · subst h3; simpa using this
+      simp only [decodeBytes, hver, Res.bind]
+      apply not_ok_bind
+      apply decodeRaw_prefix fv f h.facts p' hp'
+      intro e; exact hne (by rw [e])
+
+/-- magic present and a version byte other than 2, 3 -/
+theorem decodeBytes_version_byte (v : UInt8) (rest : Bytes) (hr : rest ≠ []) (h2 : v ≠ 2) (h3 : v ≠ 3) :
+    decodeBytes (magic ++ v :: rest) = .err .notImplemented := by
+  simp [decodeBytes, version_magic v rest hr, h2, h3, Res.bind]
 
 end Binary
 end Hpo
